@@ -42,26 +42,22 @@ Definition model_matches_spec (r : res (rres Z)) (s : res (dense Z)) : bool :=
 Definition admissible_z (m f : Z) : bool :=
   admissible Z Z.eqb (op_z m) (ufunc_cast m) (sup_z m) f.
 
-(* 0 inside the proved domain | 3 reduced_extents_positive
-   | 5 gcxs_axes_not_permuted_full | 11 gcxs_axes_nonempty | 12 gcxs_axes_distinct *)
+(* 0 inside the proved domain | 11 gcxs_axes_nonempty | 12 gcxs_axes_distinct *)
 Definition clause_of (m : Z) (x : coo Z) (isg : bool) (ax : axis_arg) : Z :=
   let sh := c_shape x in
   let ndim := zlen sh in
   match norm_axes ndim ax with
   | Raise _ => 0
   | Ok nax =>
-    let axes := match nax with None => zrange ndim | Some l => l end in
     if isg && negb (gcxs_axes_nonempty nax) then 11
     else if isg && negb (gcxs_axes_distinct nax) then 12
-    else if isg && negb (gcxs_axes_not_permuted_full ndim nax) then 5
-    else if negb (reduced_extents_positive (is_none (sup_z m)) sh axes) then 3
     else 0
   end.
 
 (* 0 agree
    1 in the domain: implementation = Spec but <> the model's representation (model unfaithful)
    2 in the domain: implementation <> Spec                        (a failing input)
-   3/5/11/12 outside the domain (named clause): implementation <> Spec (a failing input of that class)
+   11/12 outside the domain (named clause): implementation <> Spec (a failing input of that class)
    6 in the domain: result not in canonical form
    7 the model disagrees with the Spec inside the domain          (contradicts reduce_den: harness/model bug)
    8 inadmissible reduction: the implementation did not raise ValueError
@@ -101,7 +97,7 @@ Definition tag_reduce (c : rcase) : Z :=
     let path := if isg then
                   match norm_axes ndim ax with
                   | Ok None => 1
-                  | Ok (Some l) => if zlist_eqb l (zrange ndim) then 1 else 2
+                  | Ok (Some l) => if zlist_eqb (zsort l) (zrange ndim) then 1 else 2
                   | Raise _ => 2
                   end
                 else 0 in
